@@ -145,7 +145,7 @@ def sample_problems(S, cond, Y, Z, what, stats, key="sample-value"):
     for i in range(n):
         for j in range(c):
             ex = sum(S[i][k] * Fraction(Z[k][j]) for k in range(n))
-            mag = sum(abs(float(S[i][k])) * abs(Z[k][j]) for k in range(n)) + 1e-300
+            mag = rowmag(S, i) * colmax(Z, j) + 1e-300
             tol = 256 * n * EPS * cond * mag
             err = abs(float(Fraction(Y[i][j]) - ex))
             worst = max(worst, err / tol)
@@ -154,6 +154,15 @@ def sample_problems(S, cond, Y, Z, what, stats, key="sample-value"):
                 return [("prop", key, "%s: sample entry (%d,%d) = %.17g is not (S z) = %.17g (tol %.3g)" % (what, i, j, Y[i][j], float(ex), tol))]
     stats["max_relerr_sample"] = max(stats.get("max_relerr_sample", 0.0), worst)
     return []
+
+
+def rowmag(S, i):
+    """sum of |S_ik| over the row: the recovered factor's error is proportional to it (times cond of the probe draws)"""
+    return sum(abs(float(x)) for x in S[i])
+
+
+def colmax(Z, j):
+    return max([abs(row[j]) for row in Z] + [0.0])
 
 
 def round_mat(S):
@@ -184,9 +193,9 @@ def gen_fq(ctx, g):
     vals = [1.0, 0.5, 0.125, 3.0, 1024.0, 10.0, 0.1, 1e-60, 1e60, 2.0 ** -200, 2.0 ** 150, 1e-3, 7.25]
     pairs = [(1.0, 10.0), (0.5, 0.125), (1e-60, 1e-60), (1e60, 1e60), (1e-60, 1e60), (1e60, 1e-60),
              (2.0 ** -200, 3.0), (2.0 ** 150, 0.1), (1024.0, 7.25), (0.1, 1e-3)]
-    for _ in range(ctx.n(12, 300)):
+    for _ in range(ctx.n(100, 1500)):
         pairs.append((10 ** r.uniform(-4, 4), 10 ** r.uniform(-4, 4)))
-    for _ in range(ctx.n(4, 60)):
+    for _ in range(ctx.n(10, 200)):
         pairs.append((r.choice(vals), r.choice(vals)))
     out = []
     for d in (1, 2, 3):
@@ -276,7 +285,7 @@ def gen_wsamp(ctx, g):
             seed = r.randint(0, 2 ** 31)
             out.append(Case("wna_samp", "wna_samp %d %s %s %d %d %s" % (d, hexd(T), hexd(q), seed, len(seq), " ".join(map(str, seq))),
                             {"d": d, "T": T, "q": q, "seed": seed, "seq": seq}))
-    for _ in range(ctx.n(10, 400)):
+    for _ in range(ctx.n(120, 2000)):
         d = r.choice([1, 2, 3])
         T, q = pick_Tq(r, wide=True)
         seq = [r.randint(0, 4) for _ in range(r.randint(1, 4))]
@@ -293,7 +302,7 @@ def gen_lsamp(ctx, g):
     for m in (1, 2, 3, 4):
         for seq in ([0], [1], [2, 3], [4, 0, 1]):
             cases.append((m, seq))
-    for _ in range(ctx.n(8, 300)):
+    for _ in range(ctx.n(90, 1500)):
         cases.append((r.randint(1, 4), [r.randint(0, 4) for _ in range(r.randint(1, 4))]))
     for m, seq in cases:
         n = r.randint(m, 5) if m <= 5 else m
@@ -380,7 +389,7 @@ def cmp_samp(c, stats):
         total += n * cnt
         for i in range(n):
             for j in range(cnt):
-                mag = sum(abs(float(S[i][k])) * abs(Z[k][j]) for k in range(n)) + 1e-300
+                mag = rowmag(S, i) * colmax(Z, j) + 1e-300
                 tol = 512 * n * EPS * cond * mag
                 if abs(float(Fraction(Y[i][j]) - M[i][j])) > tol:
                     c.probs.append(("corr", "sample-value", "model S z and implementation sample differ at (%d,%d)" % (i, j)))
@@ -399,7 +408,7 @@ def gen_motion(ctx, g):
     out = []
     combos = [(d, br, N) for d in (1, 2, 3) for br in BRANCHES for N in ((1, 3) if br[0] == 0 else (2,))]
     combos += [(d, (0, 0, 0), N) for d in (1, 2, 3) for N in (0, 2, 4)]
-    for _ in range(ctx.n(10, 400)):
+    for _ in range(ctx.n(120, 2000)):
         combos.append((r.choice([1, 2, 3]), r.choice(BRANCHES[:3]), r.randint(0, 4)))
     for d, (skip, exo, exoskip), N in combos:
         n = 2 * d
@@ -461,7 +470,7 @@ def post_motion(c, stats):
         for j in range(N):
             for i in range(n):
                 ex = sum(F[i][k] * X[k][j] for k in range(n)) + sum(S[i][k] * Fraction(Z[k][j]) for k in range(n))
-                mag = sum(abs(float(F[i][k] * X[k][j])) for k in range(n)) + sum(abs(float(S[i][k])) * abs(Z[k][j]) for k in range(n))
+                mag = sum(abs(float(F[i][k] * X[k][j])) for k in range(n)) + rowmag(S, i) * colmax(Z, j)
                 if exo and not exoskip:
                     u = sum(Fraction(m["G"][i][k]) * X[k][j] for k in range(n)) + Fraction(m["g"][i])
                     ex += u
@@ -501,7 +510,7 @@ def cmp_motion(c, stats):
     scaleX = max([abs(x) for row in (m["X"] or [[0.0]]) for x in row] + [abs(x) for row in (m["out0"] or [[0.0]]) for x in row] + [1.0])
     for i in range(n):
         for j in range(N):
-            mag = (2 + abs(m["T"])) * scaleX * (3 if m["G"] else 1) * 4 + sum(abs(float(c.st["S"][i][k])) * abs(c.st["Z"][k][j]) for k in range(n))
+            mag = (2 + abs(m["T"])) * scaleX * (3 if m["G"] else 1) * 4 + rowmag(c.st["S"], i) * colmax(c.st["Z"], j)
             tol = 512 * n * EPS * c.st["cond"] * mag
             if abs(float(Fraction(c.st["M"][i][j]) - Mm[i][j])) > tol:
                 bad = True
@@ -528,7 +537,7 @@ def gen_trans(ctx, g):
     r = g.r
     out = []
     combos = [(d, N, style) for d in (1, 2, 3) for N, style in ((0, "rand"), (1, "rand"), (3, "rand"), (4, "mixup"), (2, "peak"), (5, "far"))]
-    for _ in range(ctx.n(12, 500)):
+    for _ in range(ctx.n(100, 1500)):
         combos.append((r.choice([1, 2, 3]), r.randint(1, 5), r.choice(["rand", "mixup", "rand", "far"])))
     for d, N, style in combos:
         n = 2 * d
@@ -717,7 +726,7 @@ def gen_linmodel(ctx, g):
             for idx in itertools.product(vals, repeat=ln):
                 add(n, idx, ln, ln, "all-lists")
     # longer lists (orderings / repetitions of every component), sampled
-    for _ in range(ctx.n(150, 3000)):
+    for _ in range(ctx.n(1000, 10000)):
         n = r.randint(1, 5)
         ln = r.randint(4, 6)
         idx = [r.randrange(n + (1 if r.random() < 0.15 else 0)) for _ in range(ln)]
@@ -879,14 +888,14 @@ def gen_sim(ctx, g):
         out.append(Case("sim", " ".join(["sim"] + traj_htoks(tr) + [str(len(ops))] + list(ops)), {"tr": tr, "ops": list(ops), "cls": cls}))
 
     tr2 = traj_aff(r, n=2, L=2)
-    for ln in range(0, ctx.n(4, 6) + 1):
+    for ln in range(0, ctx.n(5, 7) + 1):
         for ops in itertools.product("bgru", repeat=ln):
             add(tr2, ops, "exhaustive-L2")
     for L in range(0, 7):
         add(traj_aff(r, L=L), list("bg" * (L + 2)) + ["r"] + list("bg" * (L + 1)), "serve-all")
         if L >= 1:
             add(traj_wna(r, L=L), list("bg" * (L + 2)) + ["r", "g"] + list("bg" * (L + 1)), "serve-all")
-    for _ in range(ctx.n(40, 1500)):
+    for _ in range(ctx.n(400, 6000)):
         tr = traj_aff(r) if r.random() < 0.5 else traj_wna(r)
         ops = [r.choice("bbbbggru") for _ in range(r.randint(3, 20))]
         add(tr, ops, "random")
@@ -1023,7 +1032,7 @@ def gen_sensor(ctx, g):
     # the test-suite configuration: 2-D model, components {0, 2}
     tr = {"kind": "wna", "d": 2, "n": 4, "T": 1.0, "q": 10.0, "seed": 1, "L": 5, "x0": [10.0, 0.0, 10.0, 0.0]}
     add(tr, 0, [0, 2], list("fm" * 6), "shipped-config")
-    for _ in range(ctx.n(40, 1200)):
+    for _ in range(ctx.n(400, 5000)):
         tr = traj_aff(r, n=r.randint(1, 4)) if r.random() < 0.6 else traj_wna(r)
         n = tr["n"]
         circ = r.randint(0, n - 1) if tr["kind"] == "aff" and r.random() < 0.4 else 0
@@ -1095,7 +1104,7 @@ def post_sensor(c, stats):
                     break
                 used += mm
                 meas = ([xs[cur][idx[i]] + sum(SR[i][j] * Fraction(z[j]) for j in range(mm)) for i in range(mm)],
-                        cur, [abs(float(xs[cur][idx[i]])) + sum(abs(float(SR[i][j])) * abs(z[j]) for j in range(mm)) for i in range(mm)])
+                        cur, [abs(float(xs[cur][idx[i]])) + rowmag(SR, i) * max(abs(v) for v in z) for i in range(mm)])
                 cur += 1
             if o != ("flag", exp):
                 c.probs.append(("prop", "sensor-freeze", "%s: call %d: freeze returned %s, expected %s" % (what, k, o[1], exp)))
@@ -1201,7 +1210,7 @@ def gen_grid(ctx, g):
                 add(areas[0], nx, ny, 4, N, "count-mismatch")
         for R in (2, 3, 5, 6):
             add(areas[2], nx, ny, R, nx * ny, "rows-not-4")
-    for _ in range(ctx.n(10, 300)):
+    for _ in range(ctx.n(60, 1000)):
         nx, ny = r.randint(2, 6), r.randint(2, 6)
         add((r.uniform(-50, 0), r.uniform(1, 50), r.uniform(-50, 0), r.uniform(1, 50), r.choice([0, 0, 1])), nx, ny, 4, nx * ny, "valid")
     return out
@@ -1432,7 +1441,7 @@ def run(ctx):
                 "motion over the branches of propagate; transition density on batches with distinct columns; constructors over all shapes 0..3 (+5,7); "
                 "LinearModel over all index lists (length <= %d, values 0..n+1, n <= 5) + permutations + R shapes; SimulatedStateModel over all call sequences "
                 "of length <= %d on a 2-state trajectory + random longer ones (lengths 0..6); SimulatedLinearSensor call sequences; grid over nx,ny in 2..6"
-                % (ctx.n(3, 5), ctx.n(4, 6)),
+                % (ctx.n(3, 5), ctx.n(5, 7)),
         "samples": [cases[0].line[:300], cases[len(cases) // 2].line[:300], cases[-1].line[:300]],
         "section_sizes": per_section, "case_histogram": hist, "model_branches_hit": dict(br, **{k: v for k, v in stats.items() if isinstance(v, dict)}),
         "numeric": {k: v for k, v in stats.items() if not isinstance(v, dict)},
@@ -1440,7 +1449,7 @@ def run(ctx):
         "exhaustive": False,
         "exhaustive_subspaces": {"Dim": [1, 2, 3], "lti_state_shapes": "0..3 ^ 4", "lti_meas_shapes": "rows 0..3, cols {0,1,2,3,5,7}, R 0..3 ^ 2",
                        "linear_index_lists": "n 0..5, length 0..%d, values 0..n+1" % ctx.n(3, 5),
-                       "sim_call_sequences": "alphabet {bufferData,getData,reset,other}, length 0..%d, L = 2" % ctx.n(4, 6),
+                       "sim_call_sequences": "alphabet {bufferData,getData,reset,other}, length 0..%d, L = 2" % ctx.n(5, 7),
                        "grid_sizes": "nx, ny in 2..6", "sample_counts": "0..4 for every Dim"},
         "model_vs_impl_disagreements": len(corr_bad) + len(shape_bad), "property_failures_on_impl": len(prop_bad),
         "sanitizer_crashes": len(logs), "unpromised_differences_noted": notes,
